@@ -1,7 +1,7 @@
 // C02 — every selected test runs exactly once per repetition; selection follows the filters;
 //        reverse / shuffle only permute the registry.
-// Decoder: registry of 0..24 normal / ignored tests with group and name strings of length 0..3 over "aAbB",
-//          0..3 group filters and 0..3 name filters (text, strict, inverted), run-ignored, order operation
+// Decoder: registry of 0..24 normal / ignored tests with group and name strings of length 0..8 over "aAbB" (half of them over "ab" only),
+//          0..3 group filters and 0..3 name filters (text of length 0..5 or a copy / substring of a test's string, strict, inverted), run-ignored, order operation
 //          none / reverse / shuffle / both (libc rand with a seed lattice, or a scripted PlatformSpecificRand),
 //          1..3 repetitions re-shuffled with the same seed as CommandLineTestRunner does.
 // Oracle:  selection predicate written from the property statement on std::string; per repetition the execution
@@ -74,10 +74,27 @@ struct TestSpec { bool ignored; std::string group, name; };
 struct FilterSpec { std::string text; bool strict, inverted; };
 
 const char ALPHA[] = "aAbB";
-std::string packed(uint8_t b) {   // 2 bits length, 3 x 2 bits letters; 0 -> ""
-    std::string s; unsigned len = b & 3u;
-    for (unsigned k = 0; k < len; k++) s.push_back(ALPHA[(b >> (2 + 2 * k)) & 3u]);
+// one byte: 3 bits length index, 1 bit "two-letter alphabet" (more repeats, hence self-overlapping needles), 2 letters;
+// further letters 4 per byte.  0 -> "", exhausted input -> "aaa..." (repeated prefixes).
+std::string gen_string(Reader& r, bool for_filter) {
+    static const uint8_t lens_test[8] = {0, 1, 2, 3, 4, 5, 6, 8}, lens_filter[8] = {0, 1, 2, 3, 4, 5, 1, 2};
+    uint8_t b = r.u8();
+    unsigned len = (for_filter ? lens_filter : lens_test)[b & 7u];
+    bool two = (b & 8u) != 0;
+    std::string s; unsigned cur = b >> 4, have = 2;
+    for (unsigned k = 0; k < len; k++) {
+        if (have == 0) { cur = r.u8(); have = 4; }
+        unsigned l = cur & 3u; cur >>= 2; have--;
+        s.push_back(two ? "ab"[l & 1u] : ALPHA[l]);
+    }
     return s;
+}
+// class counter only: would a substring search that never goes back into consumed text miss this occurrence?
+bool needs_backtracking(const std::string& t, const std::string& p) {
+    if (p.empty() || t.find(p) == std::string::npos) return false;
+    size_t m = 0;
+    for (char c : t) { if (c != p[m]) m = 0; if (c == p[m] && ++m == p.size()) return false; }
+    return true;
 }
 
 // the selection predicate, written from the statement of C02
@@ -132,8 +149,8 @@ int run_case(Reader& r, bool& nontrivial, std::string& desc) {
         TestSpec t; uint8_t f = r.u8();
         t.ignored = (f & 3u) == 3u;
         bool same_group = (f & 4u) != 0 && i > 0;
-        t.group = same_group ? tests[i - 1].group : packed(r.u8());
-        if ((f & 24u) == 24u && i > 0) t.name = tests[(f >> 5) % i].name; else t.name = packed(r.u8());
+        t.group = same_group ? tests[i - 1].group : gen_string(r, false);
+        if ((f & 24u) == 24u && i > 0) t.name = tests[(f >> 5) % i].name; else t.name = gen_string(r, false);
         tests.push_back(t);
     }
     std::vector<FilterSpec> filters[2];   // 0 group, 1 name
@@ -141,13 +158,19 @@ int run_case(Reader& r, bool& nontrivial, std::string& desc) {
         for (size_t k = 0; k < nf[which]; k++) {
             FilterSpec f; uint8_t m = r.u8();
             f.strict = (m & 1u) != 0; f.inverted = (m & 2u) != 0;
-            unsigned kind = (m >> 2) % 3u;
-            if (kind == 0 || n == 0) f.text = packed(r.u8());
+            unsigned kind = (m >> 2) % 4u;
+            if (kind == 0 || n == 0) f.text = gen_string(r, true);
             else {
                 const TestSpec& t = tests[r.below((uint32_t)n)];
                 const std::string& src = which == 0 ? t.group : t.name;
-                if (kind == 1) f.text = src;
-                else { uint8_t b = r.u8(); size_t pos = src.empty() ? 0 : (b & 3u) % src.size(); f.text = src.substr(pos, 1 + ((b >> 2) & 1u)); }
+                if (kind == 1) f.text = src;                                   // whole string (strict matches)
+                else {
+                    uint8_t b = r.u8();
+                    size_t pos = src.empty() ? 0 : (b & 15u) % src.size();
+                    if (kind == 3)                                             // start inside a repeated letter: "aab" out of "aaab"
+                        for (size_t q = 0; q < src.size(); q++) { size_t c = (pos + q) % src.size(); if (c >= 1 && src[c - 1] == src[c]) { pos = c; break; } }
+                    f.text = src.substr(pos, 1 + ((b >> 4) % 5u));
+                }
             }
             filters[which].push_back(f);
         }
@@ -205,6 +228,10 @@ int run_case(Reader& r, bool& nontrivial, std::string& desc) {
         verif::cls(f.strict ? (f.inverted ? "filter:strict+inverted" : "filter:strict") : (f.inverted ? "filter:inverted" : "filter:substring"));
         if (f.text.empty()) verif::cls("filter:empty-text");
     }
+    { bool nb = false, longhay = false;
+      for (int which = 0; which < 2; which++) for (auto& f : filters[which]) if (!f.strict) for (auto& t : tests) { const std::string& h = which == 0 ? t.group : t.name; if (needs_backtracking(h, f.text)) nb = true; if (h.size() >= 4 && f.text.size() >= 2 && h.find(f.text) != std::string::npos) longhay = true; }
+      if (nb) verif::cls("substring:occurrence-after-overlapping-false-start");
+      if (longhay) verif::cls("substring:needle>=2-found-in-haystack>=4"); }
     if (any_filter && n > 0) verif::cls(n_sel == 0 ? "selects:none" : n_sel == n ? "selects:all" : "selects:proper-subset");
     if (run_ignored) verif::cls("run-ignored");
     { bool has_ign = false; for (auto& t : tests) has_ign |= t.ignored; if (has_ign) verif::cls(run_ignored ? "ignored-tests-run" : "ignored-tests-skipped"); }
